@@ -57,7 +57,7 @@ pub enum BalanceChange { Improved, Worsened, Unchanged }
 //@struct crates/model/src/pool/delta.rs :: pub struct PriceImpact<T> :: value, balance_change
 pub struct PriceImpact { pub value: S, pub balance_change: BalanceChange }
 
-//@struct crates/model/src/pool/delta.rs :: pub struct PoolDelta<T: Unsigned> :: current, next, delta, T, long_token_price, short_token_price
+//@struct crates/model/src/pool/delta.rs :: pub struct PoolDelta<T: Unsigned> :: current, next, delta, long_token_price, short_token_price
 pub struct PoolDelta { pub current: PoolValue, pub next: PoolValue }
 
 pub open spec fn imbalance(v: PoolValue) -> int { abs(v.long_token_usd_value@ - v.short_token_usd_value@) }
